@@ -13,17 +13,32 @@ theorem decodeList_ofInts (items : List Int) : decodeList (ofInts items) = ofInt
   | nil => simp [ofInts, decodeList]
   | cons i is ih => simp [ofInts, decodeList, decode, ih]
 
-/-- the object hook recognises an encoded array -/
-theorem decode_marker (dtype : String) (shape : List Nat) (items : List Int) :
-    decode (marker dtype shape items) = .arr dtype shape items := by
-  simp [marker, decode, findArr]
+theorem natsOf_ofNats (l : List Nat) : natsOf (ofNats l) = l := by
+  induction l with
+  | nil => rfl
+  | cons n ns ih => simp [ofNats, natsOf, ih]
 
-/-- a user dictionary without the reserved key is not mistaken for an encoded array -/
-theorem findArr_encodeDict : ∀ (kv : PVDict), WFDict kv → findArr (encodeDict kv) = none
-  | .nil, _ => by simp [encodeDict, findArr]
+/-- the object hook recognises an encoded array and rebuilds it from the three entries of the marker:
+dtype from `"dtype"`, shape from `"shape"`, items from the payload, C-contiguous -/
+theorem decode_marker (dtype : String) (shape : List Nat) (items : List Int) :
+    decode (marker dtype shape items) = .arr dtype shape (cStrides shape) 0 items := by
+  have h1 : ("__ndarray__" == "__ndarray__") = true := by decide
+  have h2 : ("__ndarray__" == "dtype") = false := by decide
+  have h3 : ("__ndarray__" == "shape") = false := by decide
+  have h4 : ("dtype" == "dtype") = true := by decide
+  have h5 : ("dtype" == "shape") = false := by decide
+  have h6 : ("shape" == "shape") = true := by decide
+  simp [marker, decode, findArr, findKey, fromMarker, natsOf_ofNats, h1, h2, h3, h4, h5, h6]
+
+/-- a user dictionary without the reserved keys is not mistaken for an encoded array / Qt array -/
+theorem findArr_encodeDict : ∀ (kv : PVDict), WFDict kv →
+    findArr (encodeDict kv) = none ∧ findKey "__qbytearray__" (encodeDict kv) = none
+  | .nil, _ => by simp [encodeDict, findArr, findKey]
   | .cons k v t, h => by
-    have h' : k ≠ "__ndarray__" ∧ WF v ∧ WFDict t := by simpa [WFDict] using h
-    simp [encodeDict, findArr, h'.1, findArr_encodeDict t h'.2.2]
+    have h' : k ≠ "__ndarray__" ∧ k ≠ "__qbytearray__" ∧ WF v ∧ WFDict t := by simpa [WFDict] using h
+    have ih := findArr_encodeDict t h'.2.2.2
+    simp only [findArr] at ih
+    simp [encodeDict, findArr, findKey, h'.1, h'.2.1, ih.1, ih.2]
 
 mutual
 theorem vr : ∀ (v : PV), WF v → decode (encode v) = canon v
@@ -33,21 +48,22 @@ theorem vr : ∀ (v : PV), WF v → decode (encode v) = canon v
   | .float _, _ => by simp [encode, decode, canon]
   | .str _, _ => by simp [encode, decode, canon]
   | .npScalar _, _ => by simp [encode, decode, canon]
-  | .arr dtype [] items, _ => by simp [encode, canon, decode_marker]
-  | .arr dtype [n] items, _ => by
+  | .payload _ _, _ => by simp [encode, decode, canon]
+  | .arr dtype [] st off mem, _ => by simp [encode, canon, decode_marker]
+  | .arr dtype [n] st off mem, _ => by
     by_cases hn : (n ≤ 10 && !isComplexDtype dtype) = true
     · simp only [encode, canon, hn, if_true]
       simp [decode, decodeList_ofInts]
     · simp only [encode, canon, hn]
       exact decode_marker ..
-  | .arr dtype (_ :: _ :: _) items, _ => by simp [encode, canon, decode_marker]
+  | .arr dtype (_ :: _ :: _) st off mem, _ => by simp [encode, canon, decode_marker]
   | .list l, h => by
     have := vrL l (by simpa [WF] using h)
     simp [encode, decode, canon, this]
   | .dict kv, h => by
     have hd : WFDict kv := by simpa [WF] using h
     have := vrD kv hd
-    simp [encode, decode, canon, this, findArr_encodeDict kv hd]
+    simp [encode, decode, canon, this, (findArr_encodeDict kv hd).1, (findArr_encodeDict kv hd).2]
 theorem vrL : ∀ (l : PVList), WFList l → decodeList (encodeList l) = canonList l
   | .nil, _ => by simp [encodeList, decodeList, canonList]
   | .cons x t, h => by
@@ -56,11 +72,144 @@ theorem vrL : ∀ (l : PVList), WFList l → decodeList (encodeList l) = canonLi
 theorem vrD : ∀ (kv : PVDict), WFDict kv → decodeDict (encodeDict kv) = canonDict kv
   | .nil, _ => by simp [encodeDict, decodeDict, canonDict]
   | .cons k x t, h => by
-    have h' : k ≠ "__ndarray__" ∧ WF x ∧ WFDict t := by simpa [WFDict] using h
-    simp [encodeDict, decodeDict, canonDict, vr x h'.2.1, vrD t h'.2.2]
+    have h' : k ≠ "__ndarray__" ∧ k ≠ "__qbytearray__" ∧ WF x ∧ WFDict t := by simpa [WFDict] using h
+    simp [encodeDict, decodeDict, canonDict, vr x h'.2.2.1, vrD t h'.2.2.2]
 end
 
+/-! ### arrays: shape, dtype and every element survive, for every memory layout -/
+
+theorem sum_map_const {α : Type} (L : Nat) : ∀ (l : List α), (l.map (fun _ => L)).sum = l.length * L
+  | [] => by simp
+  | _ :: t => by simp [sum_map_const L t, Nat.add_mul, Nat.add_comm]
+
+theorem gather_length (mem : List Int) : ∀ (shape : List Nat) (strides : List Int) (pos : Int),
+    (gather mem shape strides pos).length = size shape
+  | [], _, _ => by simp [gather, size]
+  | n :: shape, s :: strides, pos => by
+    simp only [gather, size, List.length_flatMap]
+    rw [List.map_congr_left (g := fun _ => size shape) (fun i _ => gather_length mem shape strides _)]
+    simp [sum_map_const]
+  | n :: shape, [], pos => by
+    simp only [gather, size, List.length_flatMap]
+    rw [List.map_congr_left (g := fun _ => size shape) (fun i _ => gather_length mem shape [] _)]
+    simp [sum_map_const]
+
+/-- indexing into equally long blocks laid one after the other -/
+theorem getD_flatMap_range (f : Nat → List Int) (L : Nat) :
+    ∀ (n : Nat), (∀ i, i < n → (f i).length = L) → ∀ (i r : Nat), i < n → r < L →
+      ((List.range n).flatMap f).getD (i * L + r) 0 = (f i).getD r 0 := by
+  intro n
+  induction n with
+  | zero => intro _ i r hi; omega
+  | succ n ih =>
+    intro hlen i r hi hr
+    have hlenL : ((List.range n).flatMap f).length = n * L := by
+      rw [List.length_flatMap, List.map_congr_left (g := fun _ => L)
+        (fun i hi => hlen i (by have := List.mem_range.mp hi; omega))]
+      simp [sum_map_const]
+    rw [List.range_succ, List.flatMap_append]
+    simp only [List.flatMap_cons, List.flatMap_nil, List.append_nil]
+    by_cases hin : i < n
+    · have hlt : i * L + r < ((List.range n).flatMap f).length := by
+        rw [hlenL]
+        calc i * L + r < i * L + L := by omega
+          _ = (i + 1) * L := by rw [Nat.add_mul, Nat.one_mul]
+          _ ≤ n * L := Nat.mul_le_mul_right L (by omega)
+      rw [List.getD_eq_getElem?_getD, List.getElem?_append_left hlt, ← List.getD_eq_getElem?_getD]
+      exact ih (fun j hj => hlen j (by omega)) i r hin hr
+    · have hi' : i = n := by omega
+      subst hi'
+      rw [List.getD_eq_getElem?_getD, List.getElem?_append_right (by rw [hlenL]; omega), hlenL,
+        ← List.getD_eq_getElem?_getD]
+      congr 1
+      omega
+
+theorem rank_lt : ∀ (shape idx : List Nat), IdxOK shape idx → rank shape idx < size shape
+  | [], [], _ => by simp [rank, size]
+  | [], _ :: _, h => by simp [IdxOK] at h
+  | _ :: _, [], h => by simp [IdxOK] at h
+  | n :: shape, i :: idx, h => by
+    have h' : i < n ∧ IdxOK shape idx := by simpa [IdxOK] using h
+    have ih := rank_lt shape idx h'.2
+    simp only [rank, size]
+    calc i * size shape + rank shape idx < i * size shape + size shape := by omega
+      _ = (i + 1) * size shape := by rw [Nat.add_mul, Nat.one_mul]
+      _ ≤ n * size shape := Nat.mul_le_mul_right _ (by omega)
+
+/-- the row-major copy holds, at the row-major rank of `idx`, the element the array has at `idx` -/
+theorem gather_getD (mem : List Int) : ∀ (shape : List Nat) (strides : List Int) (pos : Int)
+    (idx : List Nat), strides.length = shape.length → IdxOK shape idx →
+    (gather mem shape strides pos).getD (rank shape idx) 0 = getMem mem (memPos strides pos idx)
+  | [], [], pos, [], _, _ => by simp [gather, rank, memPos]
+  | [], _ :: _, _, _, hl, _ => by simp at hl
+  | [], [], _, _ :: _, _, h => by simp [IdxOK] at h
+  | _ :: _, [], _, _, hl, _ => by simp at hl
+  | _ :: _, _ :: _, _, [], _, h => by simp [IdxOK] at h
+  | n :: shape, s :: strides, pos, i :: idx, hl, h => by
+    have h' : i < n ∧ IdxOK shape idx := by simpa [IdxOK] using h
+    have hl' : strides.length = shape.length := by simpa using hl
+    simp only [gather, rank, memPos]
+    rw [getD_flatMap_range _ (size shape) n (fun j _ => gather_length mem shape strides _) i _ h'.1
+      (rank_lt shape idx h'.2)]
+    exact gather_getD mem shape strides _ idx hl' h'.2
+
+theorem memPos_cStrides : ∀ (shape idx : List Nat) (pos : Int), IdxOK shape idx →
+    memPos (cStrides shape) pos idx = pos + (rank shape idx : Nat)
+  | [], [], pos, _ => by simp [memPos, cStrides, rank]
+  | [], _ :: _, _, h => by simp [IdxOK] at h
+  | _ :: _, [], _, h => by simp [IdxOK] at h
+  | n :: shape, i :: idx, pos, h => by
+    have h' : i < n ∧ IdxOK shape idx := by simpa [IdxOK] using h
+    simp only [memPos, cStrides, rank]
+    rw [memPos_cStrides shape idx _ h'.2]
+    push_cast
+    omega
+
+/-- every element of the array that comes back equals the element of the saved array at the same
+multi-index, whatever (strides, offset) the saved array had -/
+theorem array_elements_preserved (shape : List Nat) (strides : List Int) (off : Int) (mem : List Int)
+    (idx : List Nat) (hl : strides.length = shape.length) (hi : IdxOK shape idx) :
+    getAt (cStrides shape) 0 (gather mem shape strides off) idx = getAt strides off mem idx := by
+  unfold getAt
+  rw [memPos_cStrides shape idx 0 hi, ← gather_getD mem shape strides off idx hl hi]
+  unfold getMem
+  simp only [List.getD_eq_getElem?_getD]
+  split
+  · omega
+  · simp
+
 theorem value_roundtrip (v : PV) (h : WF v) : decode (encode v) = canon v := vr v h
+
+/-- an array that is not a short 1-D non-complex one comes back as an array with the same dtype string,
+the same shape, C-contiguous, holding the row-major copy of the saved elements -/
+theorem array_roundtrip (dtype : String) (shape : List Nat) (strides : List Int) (off : Int) (mem : List Int)
+    (hbig : ∀ n, shape = [n] → (n ≤ 10 && !isComplexDtype dtype) = false) :
+    decode (encode (.arr dtype shape strides off mem)) =
+      .arr dtype shape (cStrides shape) 0 (gather mem shape strides off) := by
+  rw [value_roundtrip _ (by simp [WF])]
+  match shape, hbig with
+  | [], _ => simp [canon]
+  | [n], hbig => simp [canon, hbig n rfl]
+  | _ :: _ :: _, _ => simp [canon]
+
+/-- the elements of a 1-D array in index order: `mem[offset + i * stride]` for i = 0 .. n-1 -/
+theorem gather_1d (mem : List Int) (n : Nat) (s : Int) (off : Int) :
+    gather mem [n] [s] off = (List.range n).map fun (i : Nat) => getMem mem (off + (i : Int) * s) := by
+  simp only [gather]
+  generalize List.range n = l
+  induction l with
+  | nil => rfl
+  | cons a t ih => simp [List.flatMap_cons, ih]
+
+/-- a 1-D array of at most ten items of a non-complex dtype comes back as the list of its elements in
+index order (whatever its stride: `a[::2]`, `a[::-1]` included) -/
+theorem small_array_roundtrip (dtype : String) (n : Nat) (s : Int) (off : Int) (mem : List Int)
+    (hn : n ≤ 10) (hc : isComplexDtype dtype = false) :
+    decode (encode (.arr dtype [n] [s] off mem)) =
+      .list (ofInts ((List.range n).map fun (i : Nat) => getMem mem (off + (i : Int) * s))) := by
+  rw [value_roundtrip _ (by simp [WF])]
+  have : (n ≤ 10 && !isComplexDtype dtype) = true := by simp [hn, hc]
+  simp only [canon, this, if_true, gather_1d]
 
 theorem key_roundtrip (hs : IntStrOK) (k : Key) (hk : KeyOK k) : intifyKey (stringifyKey k) = k := by
   cases k with
@@ -113,21 +262,19 @@ theorem nodup_eraseDups (l : List String) : l.eraseDups.Nodup := by
         simp at hn; omega
 
 /-- the header line of `write_tsv` -/
-def header (rows : List (List (String × Cell))) (first : Option String) : List String :=
+def header {γ : Type} (rows : List (List (String × γ))) (first : Option String) : List String :=
   let fields := (rows.flatMap fun r => r.map (·.1)).eraseDups
   match first with
   | some f => if fields.contains f then f :: sortStrings (fields.erase f) else sortStrings fields
   | none => sortStrings fields
 
-theorem writeTsv_eq (render : Cell → String) (rows : List (List (String × Cell))) (first : Option String) :
+theorem writeTsv_eq {γ : Type} (render : γ → String) (rows : List (List (String × γ))) (first : Option String) :
     writeTsv render rows first =
       if rows.isEmpty then none else
         some (header rows first, rows.map fun r => (header rows first).map fun f =>
-          match r.lookup f with
-          | some c => render c
-          | none => "") := rfl
+          renderOpt render (r.lookup f)) := rfl
 
-theorem header_perm (rows : List (List (String × Cell))) (first : Option String) :
+theorem header_perm {γ : Type} (rows : List (List (String × γ))) (first : Option String) :
     (header rows first).Perm (rows.flatMap fun r => r.map (·.1)).eraseDups := by
   unfold header
   cases first with
@@ -140,18 +287,18 @@ theorem header_perm (rows : List (List (String × Cell))) (first : Option String
       exact (List.Perm.cons f (sortStrings_perm _)).trans (List.perm_cons_erase hm).symm
     · exact sortStrings_perm _
 
-theorem header_nodup (rows : List (List (String × Cell))) (first : Option String) :
+theorem header_nodup {γ : Type} (rows : List (List (String × γ))) (first : Option String) :
     (header rows first).Nodup :=
   (header_perm rows first).nodup_iff.mpr (nodup_eraseDups _)
 
-theorem mem_header (rows : List (List (String × Cell))) (first : Option String)
-    (r : List (String × Cell)) (hr : r ∈ rows) (fc : String × Cell) (hfc : fc ∈ r) :
+theorem mem_header {γ : Type} (rows : List (List (String × γ))) (first : Option String)
+    (r : List (String × γ)) (hr : r ∈ rows) (fc : String × γ) (hfc : fc ∈ r) :
     fc.1 ∈ header rows first := by
   rw [(header_perm rows first).mem_iff, List.mem_eraseDups, List.mem_flatMap]
   exact ⟨r, hr, List.mem_map.mpr ⟨fc, hfc, rfl⟩⟩
 
-theorem mem_of_lookup_eq_some {f : String} {c : Cell} :
-    ∀ {r : List (String × Cell)}, r.lookup f = some c → (f, c) ∈ r
+theorem mem_of_lookup_eq_some {γ : Type} {f : String} {c : γ} :
+    ∀ {r : List (String × γ)}, r.lookup f = some c → (f, c) ∈ r
   | [], h => by simp at h
   | (k, v) :: t, h => by
     rw [List.lookup_cons] at h
@@ -169,20 +316,18 @@ theorem mem_of_lookup_eq_some {f : String} {c : Cell} :
 theorem line_roundtrip_on (D : Cell → Prop) (render : Cell → String) (parse : String → Cell)
     (hrt : ∀ c, D c → parse (render c) = c) (hne : ∀ c, D c → render c ≠ "")
     (r : List (String × Cell)) (hD : ∀ fc ∈ r, D fc.2) (fields : List String) :
-    (((fields.zip (fields.map fun f =>
-        match r.lookup f with
-        | some c => render c
-        | none => "")).filter fun p => p.2 != "").map fun p => (p.1, parse p.2)) =
+    (((fields.zip (fields.map fun f => renderOpt render (r.lookup f))).filter
+        fun p => p.2 != "").map fun p => (p.1, parse p.2)) =
       fields.filterMap fun f => (r.lookup f).map fun c => (f, c) := by
   induction fields with
   | nil => simp
   | cons f fs ih =>
     simp only [List.map_cons, List.zip_cons_cons, List.filterMap_cons]
     cases hl : r.lookup f with
-    | none => simpa [List.filter_cons] using ih
+    | none => simpa [List.filter_cons, renderOpt] using ih
     | some c =>
       have hc : D c := hD (f, c) (mem_of_lookup_eq_some hl)
-      simpa [List.filter_cons, hne c hc, hrt c hc] using ih
+      simpa [List.filter_cons, renderOpt, hne c hc, hrt c hc] using ih
 
 /- `hnodup` is not needed by the proof: `expectedRows` and `writeTsv` both use `List.lookup`
 (first occurrence of a field), so duplicate field names inside a row are handled consistently. -/
@@ -204,7 +349,7 @@ theorem tsv_roundtrip_on (D : Cell → Prop) (render : Cell → String) (parse :
     simp only [readTsv, expectedRows, List.map_map]
     apply List.map_congr_left
     intro r hr
-    exact line_roundtrip_on D render parse hrt hne r (hD r hr) _
+    exact line_roundtrip_on D render parse hrt hne r (hD r hr) (header rows first)
 
 /-- the unrestricted form: the domain is every cell -/
 theorem tsv_roundtrip (render : Cell → String) (parse : String → Cell)
